@@ -141,7 +141,10 @@ def settings_grid(name, rng, tier):
         return combine(["", "abcdefgh", h64(64)] + [h64(rng.randint(1, 64)) for _ in range(nextra)], [1, 2, 77] + ([3, 1000] if thorough else []))
     if base in ("sha256_crypt", "sha512_crypt"):
         # 5000 is rendered in the implicit-rounds form; 1000+42k+r exercises the block/tail split
-        return combine(["", "a", "saltstring", h64(16)] + [h64(rng.randint(1, 16)) for _ in range(nextra)], [1000, 1043, 5000] + ([1001, 1084, 1999] if thorough else []))
+        if not thorough:
+            fixed = [("saltstring", 1000), ("a", 1043), (h64(16), 5000), ("", 1001), (h64(rng.randint(2, 15)), 1000), (h64(16), 1085)]
+            return [(f"salt={s!r},rounds={c}", {"salt": s, "rounds": c}) for s, c in fixed]
+        return combine(["", "a", "saltstring", h64(16)] + [h64(rng.randint(1, 16)) for _ in range(nextra)], [1000, 1043, 5000, 1001, 1084, 1999])
     if base == "bcrypt":
         salts = [bcrypt64(bytes(rng.getrandbits(8) for _ in range(16))) for _ in range(2 if thorough else 1)]
         out = []
@@ -370,7 +373,7 @@ def _run(tier, rng, quick, host, handlers, original, skipped, notes, exc):
             do = outcome(h.set_backend, "default")
             g.case((name, "default"))
             now = outcome(h.get_backend)
-            g.check(do[0] == "ok" and now[0] == "ok" and now[1] in available[name], f"default-backend:{name}", "set_backend('default') fails or selects a backend that is not available", {"hasher": name, "outcome": repr(do), "backend": repr(now)})
+            g.check(do[0] == "ok" and now[0] == "ok" and now[1] in tuple(h.backends), f"default-backend:{name}", "set_backend('default') fails although a backend is available", {"hasher": name, "outcome": repr(do), "backend": repr(now)})
         if original.get(name):
             outcome(h.set_backend, original[name])
     groups.append(g)
@@ -403,6 +406,8 @@ def _run(tier, rng, quick, host, handlers, original, skipped, notes, exc):
         if grid is None:
             skipped.append(f"{name}: no settings grid for this hasher (not in the C03 domain)")
             continue
+        if quick and name != base_format(name):
+            grid = grid[:3]  # wrappers share the code of the wrapped hasher: fewer settings in the quick tier
         fam = family(name)
         is_bcrypt_family = fam == "bcrypt"
         points = []
@@ -411,7 +416,7 @@ def _run(tier, rng, quick, host, handlers, original, skipped, notes, exc):
                 points.append((sid, kw, pid, pw))
         # subset evaluated under the slow pure-python bcrypt
         if is_bcrypt_family:
-            budget = (16 if name == "bcrypt" else 5) if quick else (120 if name == "bcrypt" else 30)
+            budget = (12 if name == "bcrypt" else 3) if quick else (120 if name == "bcrypt" else 30)
             cand = [i for i, p in enumerate(points) if p[2] in slow_pw_ids]
             if base_format(name) == "bcrypt":
                 # one point per ident first, then boundary passwords on the first settings
@@ -477,8 +482,9 @@ def _run(tier, rng, quick, host, handlers, original, skipped, notes, exc):
             if outcome(h.set_backend, b)[0] != "ok":
                 continue
             nslow = 0
+            verify_sids = {sid for sid, _ in grid[: (2 if quick else len(grid))]}
             for i, (sid, kw, pid, pw) in enumerate(points):
-                if i not in results[b]:
+                if i not in results[b] or sid not in verify_sids:
                     continue
                 seen = set()
                 for a in backends:
@@ -487,7 +493,7 @@ def _run(tier, rng, quick, host, handlers, original, skipped, notes, exc):
                         continue
                     if b == "builtin" and slow_idx is not None:
                         nslow += 1
-                        if nslow > (4 if quick else 24):
+                        if nslow > (2 if quick else 24):
                             continue
                     seen.add(ra[1])
                     vo = outcome(h.verify, pw, ra[1])
@@ -513,8 +519,9 @@ def _run(tier, rng, quick, host, handlers, original, skipped, notes, exc):
     g = Group(
         "backend-switching",
         "BackendMixin.set_backend (frame)",
-        "unordered pairs {A, B} of different hashers (quick: the 9 base hashers; thorough: + ldap_/django_ wrappers) x every sequence of "
-        "1..3 switches (X, backend) with X in {A, B} and backend among X's available ones: after the sequence a fixed probe "
+        "unordered pairs {A, B} of different hashers x every sequence of 1..L switches (X, backend) (quick: the 9 base hashers, L=3 for the 9 "
+        "ring-adjacent pairs and L=2 for the other 27; thorough: L=3 for all 36 base pairs, L=2 for every pair involving an ldap_/django_ wrapper) "
+        "with X in {A, B} and backend among X's available ones: after the sequence a fixed probe "
         "(password, salt, cost) is re-hashed through every hasher of the tier and must equal the value recorded before any switch. "
         "builtin bcrypt is a switch target only for pairs (bcrypt, <one/each crypt hasher>) and then only `bcrypt` itself is probed in the family",
     )
@@ -548,11 +555,18 @@ def _run(tier, rng, quick, host, handlers, original, skipped, notes, exc):
                 out.append((x, bk))
         return out
 
-    deadline = time.time() + (25 if quick else 330)
-    truncated = 0
+    plan = []
+    for i, a in enumerate(base_names):
+        for j in range(i + 1, len(base_names)):
+            adjacent = j - i in (1, len(base_names) - 1)
+            plan.append((a, base_names[j], 3 if (adjacent or not quick) else 2))
     for a, b in itertools.combinations(tier_names, 2):
+        if a not in base_names or b not in base_names:
+            plan.append((a, b, 2))
+    deadline = time.time() + (40 if quick else 420)  # safety net only; the plan is sized to stay far below
+    truncated = 0
+    for a, b, maxlen in plan:
         alpha = alphabet(a, b)
-        maxlen = 3
         for length in range(1, maxlen + 1):
             for seq in itertools.product(alpha, repeat=length):
                 if time.time() > deadline:
